@@ -151,3 +151,99 @@ func LibGoroutines(gs []G) []G {
 	}
 	return out
 }
+
+// CallResult of Call.
+type CallResult int
+
+const (
+	Returned CallResult = iota
+	Hung                // logical proof: every goroutine blocked on consecutive samples while f had not returned
+	TimedOut            // wall-clock budget exhausted without a proof: inconclusive
+)
+
+// Call runs f on its own goroutine and decides, without relying on a
+// deadline, whether it hangs: f has not returned and every goroutine of the
+// process is blocked (no timer-driven goroutine, nothing runnable) on several
+// consecutive samples spread over at least 250 ms. Catalogue timers are ≤ a few
+// ms or ≥ 1 h, so nothing can wake the process up in between. The panic value
+// of f, if any, is returned.
+func Call(f func(), budget time.Duration) (res CallResult, dump string, pan any) {
+	done := make(chan any, 1)
+	go func() {
+		defer func() { done <- recover() }()
+		f()
+	}()
+	start := time.Now()
+	consecutive := 0
+	for {
+		select {
+		case p := <-done:
+			return Returned, "", p
+		case <-time.After(5 * time.Millisecond):
+		}
+		if _, ok := Settle(30 * time.Millisecond); ok {
+			consecutive++
+		} else {
+			consecutive = 0
+		}
+		if consecutive >= 4 && time.Since(start) >= 250*time.Millisecond {
+			select {
+			case p := <-done:
+				return Returned, "", p
+			default:
+			}
+			var b strings.Builder
+			for _, g := range Dump() {
+				if g.Lib || strings.Contains(g.Stack, "/repo/") {
+					b.WriteString(g.Stack)
+					b.WriteString("\n\n")
+				}
+			}
+			return Hung, b.String(), nil
+		}
+		if time.Since(start) > budget {
+			return TimedOut, "", nil
+		}
+		time.Sleep(20 * time.Millisecond)
+	}
+}
+
+var frameRe = regexp.MustCompile(`github\.com/samber/ro[^\s(]*?\.((?:\(\*?[A-Za-z0-9_]+(?:\[\.\.\.\])?\)\.)?[A-Za-z0-9_]+)`)
+
+// BlockedSite names the innermost library function in which a goroutine of the
+// dump is blocked (used to key hang findings by call site, not by scenario).
+func BlockedSite(dump string) string {
+	best := ""
+	for _, blk := range strings.Split(dump, "\n\n") {
+		m := hdr.FindStringSubmatch(blk)
+		if m == nil {
+			continue
+		}
+		st := m[2]
+		if !(strings.HasPrefix(st, "sync.Mutex.Lock") || strings.HasPrefix(st, "chan") || strings.HasPrefix(st, "select") || strings.HasPrefix(st, "semacquire") || strings.HasPrefix(st, "sync.")) {
+			continue
+		}
+		for _, line := range strings.Split(blk, "\n") {
+			if strings.HasPrefix(line, "\t") {
+				continue
+			}
+			if strings.Contains(line, "github.com/samber/ro") && !strings.Contains(line, "internal/xsync") {
+				if fm := frameRe.FindStringSubmatch(line); fm != nil {
+					site := strings.ReplaceAll(fm[1], "[...]", "")
+					site = strings.NewReplacer("(*", "", "(", "", ")", "").Replace(site)
+					if strings.HasPrefix(st, "sync.Mutex.Lock") {
+						return site + "(mutex)"
+					}
+					if best == "" {
+						best = site + "(" + strings.Fields(st)[0] + ")"
+					}
+					break
+				}
+			}
+		}
+	}
+	if best == "" {
+		return "unknown-site"
+	}
+	return best
+}
